@@ -36,6 +36,7 @@ type Case struct {
 	RefCount bool     `json:"refcount"`
 	Delay    bool     `json:"delay"`
 	NegDelay bool     `json:"negdelay,omitempty"` // the delay is passed as a negative duration (documented: its magnitude is used)
+	OptTwice bool     `json:"opttwice,omitempty"` // the release-delay option is given twice, the opposite setting first: the last one counts
 	Behs     []string `json:"behs"`
 	Backoff  []int    `json:"backoff"`
 	Full     bool     `json:"full"`
@@ -55,6 +56,7 @@ func genCase(kind string) func(t *rapid.T) Case {
 		c.NKeys = rapid.IntRange(1, ev.Pick(5, 6)).Draw(t, "nkeys")
 		c.Delay = rapid.Bool().Draw(t, "delay")
 		c.NegDelay = c.Delay && rapid.IntRange(0, 3).Draw(t, "negdelay") == 0
+		c.OptTwice = rapid.IntRange(0, 4).Draw(t, "opttwice") == 0
 		var behs, kinds []string
 		switch kind {
 		case "C06":
@@ -204,13 +206,14 @@ var parkPoints = []string{"keyed.lock", "keyedrc.lock", "keyed.exec", "keyed.tim
 func run(t *testing.T, cs Case) *ev.Verdict {
 	v := &ev.Verdict{}
 	canon, _ := json.Marshal(struct {
-		R, D, F bool
-		ND      bool
-		B       []string
-		Bo      []int
-		N       int
-		Ops     []Op
-	}{cs.RefCount, cs.Delay, cs.Full, cs.NegDelay, cs.Behs, cs.Backoff, cs.NKeys, cs.Ops})
+		R, D, F  bool
+		ND       bool
+		B        []string
+		Bo       []int
+		N        int
+		Ops      []Op
+		OptTwice bool
+	}{cs.RefCount, cs.Delay, cs.Full, cs.NegDelay, cs.Behs, cs.Backoff, cs.NKeys, cs.Ops, cs.OptTwice})
 	v.Canon = string(canon)
 	c, berr := sched.Run(t, parkPoints, cs.Sched, func(c *sched.Ctl) { body(c, cs, v) })
 	v.Trace = c.Trace()
@@ -355,10 +358,17 @@ func body(c *sched.Ctl, cs Case, v *ev.Verdict) {
 		return func(ctx context.Context) error { return runInstance(ctx, idx, key, beh) }, data
 	}
 	var opts []keyed.Option[int, int]
+	if cs.OptTwice && !cs.Delay {
+		// an earlier option is overridden by a later one
+		opts = append(opts, keyed.WithReleaseDelay[int, int](delayMs*time.Millisecond), nil, keyed.WithReleaseDelay[int, int](0))
+	}
 	if cs.Delay {
 		d := delayMs * time.Millisecond
 		if cs.NegDelay {
 			d = -d
+		}
+		if cs.OptTwice {
+			opts = append(opts, keyed.WithReleaseDelay[int, int](0), keyed.WithReleaseDelay[int, int](3*d))
 		}
 		opts = append(opts, keyed.WithReleaseDelay[int, int](d))
 	}
